@@ -402,6 +402,71 @@ class Unit:
                          lines_generated=len(f))
         self.fns.append(rec)
 
+    def expand_select(self, body, rec):
+        """R23: `tokio::select! { [biased;] PAT = FUT [, if COND] => HANDLER, .. }` -> a nondeterministic choice among the
+        enabled branches: `{ let vsel = vselect(); if vsel == 0 [&& COND] { let PAT = FUT; HANDLER } else if .. else { vselect_none() } }`.
+        Which branch completes first is the scheduler's business, so every enabled branch may run; `biased` only orders
+        polling.  Only irrefutable patterns (identifier, `_`, `()`, tuples of those) are supported -- with a refutable
+        pattern a non-matching completion disables the branch and the others go on, which this expansion cannot express."""
+        n = 0
+        while True:
+            bm = mask(body)
+            mt = re.search(r'tokio::select!\s*\{', bm)
+            if not mt:
+                break
+            bo = mt.end() - 1
+            bc = match_close(bm, bo)
+            inner, im = body[bo + 1:bc], bm[bo + 1:bc]
+            mb = re.match(r'\s*biased\s*;', im)
+            if mb:
+                inner, im = inner[mb.end():], im[mb.end():]
+            arms, pos = [], 0
+            while im[pos:].strip():
+                ma = re.compile(r'=>').search(im, pos)
+                if not ma:
+                    raise Undecided('%s: cannot parse select! arm' % rec.name)
+                head = inner[pos:ma.start()]
+                hm = im[pos:ma.start()]
+                eq = hm.index('=')
+                pat = head[:eq].strip()
+                fut = head[eq + 1:].strip()
+                cond = None
+                parts = _split_top(fut, mask(fut), ', if ')
+                if len(parts) == 2:
+                    fut, cond = parts[0].strip(), parts[1].strip()
+                if not re.fullmatch(r'(mut\s+)?[a-z_]\w*|\(\s*\)|\((\s*(mut\s+)?[a-z_]\w*\s*,?)+\)', pat):
+                    raise Undecided('%s: select! arm with refutable pattern `%s` is outside R23' % (rec.name, pat))
+                j = ma.end()
+                while im[j] in ' \t\n':
+                    j += 1
+                if im[j] == '{':
+                    he = match_close(im, j) + 1
+                    handler = inner[j:he]
+                else:
+                    k = j
+                    d = 0
+                    while k < len(im) and not (im[k] == ',' and d == 0):
+                        d += im[k] in '([{'
+                        d -= im[k] in ')]}'
+                        k += 1
+                    he = k
+                    handler = '{ ' + inner[j:he] + ' }'
+                arms.append((pat, fut, cond, handler))
+                pos = he
+                mc = re.match(r'\s*,', im[pos:])
+                if mc:
+                    pos += mc.end()
+            out = '{ let vsel = vselect();\n'
+            for i, (pat, fut, cond, handler) in enumerate(arms):
+                out += ' %sif vsel == %d%s { let %s = %s; %s }\n' % ('else ' if i else '', i, (' && (%s)' % cond) if cond else '', pat, fut, handler)
+            out += ' else { vselect_none() } }'
+            body = body[:mt.start()] + out + body[bc + 1:]
+            n += 1
+        if n == 0:
+            raise Undecided('anchor lost in %s: no tokio::select! to expand' % rec.name)
+        rec.rewrites.append(dict(rule='R23', what='select! expanded into a nondeterministic choice among its enabled branches', count=n))
+        return body
+
     def expand_retain(self, body, rec):
         """R22: `RECV.retain(|PAT| { BODY });` -> the loop std documents for Vec/VecDeque::retain ("visits each element
         exactly once in the original order", keeps those for which the closure returns true), with the closure body
@@ -479,6 +544,7 @@ class Unit:
         sigsubs = []
         subs = []
         expandretain = False
+        expandselect = False
         sections = []  # (kind, arg, lines)
         cur = None
         for ln in block:
@@ -501,6 +567,8 @@ class Unit:
                     addparam = a
                 elif c == 'expandretain':
                     expandretain = True
+                elif c == 'expandselect':
+                    expandselect = True
                 elif c in ('sub', 'sub?'):
                     rule, rest = a.split(None, 1)
                     rx, repl = parse_bt(rest)
@@ -564,6 +632,8 @@ class Unit:
             for j in sorted(starts, reverse=True):
                 body_text = body_text[:j] + '/*VXCANCEL*/' + body_text[j:]
             rec.rewrites.append(dict(rule='R3', what='cancel point before every awaiting statement', count=len(starts)))
+        if expandselect:
+            body_text = self.expand_select(body_text, rec)
         if expandretain:
             body_text = self.expand_retain(body_text, rec)
         body_new = self.apply_rules(body_text, rec, subs)
